@@ -466,3 +466,27 @@ Proof.
   apply list_eqb_eq. intros [x r] [y r']; simpl. rewrite andb_true_iff, String.eqb_eq, mrec_eqb_eq.
   split; [intros [-> ->]; reflexivity | intro H; inversion H; auto].
 Qed.
+
+(** *** Comparison with an observed run (tools/c20_impl.py), insensitive to dict order. *)
+Definition incl_b {A} (eqb : A -> A -> bool) (l1 l2 : list A) : bool :=
+  forallb (fun x => existsb (eqb x) l2) l1.
+Definition same_set {A} (eqb : A -> A -> bool) (l1 l2 : list A) : bool :=
+  incl_b eqb l1 l2 && incl_b eqb l2 l1.
+
+Definition obs_agree (pred obs : list (modname * list (name * string))) : bool :=
+  same_set (fun a b => String.eqb (fst a) (fst b)
+                       && same_set (fun x y => String.eqb (fst x) (fst y) && String.eqb (snd x) (snd y))
+                                   (snd a) (snd b)) pred obs.
+
+Definition names_agree (pred obs : list (modname * list name)) : bool :=
+  same_set (fun a b => String.eqb (fst a) (fst b) && same_set String.eqb (snd a) (snd b)) pred obs.
+
+(** [obs_ok]: the client program finished without exception; [obs]: per loaded package module the
+    public names bound to package objects with their identity labels; [obs_names]: per loaded
+    package module all public names. *)
+Definition C20_verdict (P : progs) (seq : list modname) (obs_ok : bool)
+    (obs : list (modname * list (name * string))) (obs_names : list (modname * list name)) : bool :=
+  match run_imports P seq with
+  | Ok st => obs_ok && obs_agree (predicted st) obs && names_agree (predicted_all_names st) obs_names
+  | Err _ => negb obs_ok
+  end.
